@@ -249,6 +249,68 @@ def round4_probes(ctx):
         ctx.fail("oracle", "mcquad:gradient-in-the-wrong-slot", {"fparams": "(c without grad, a)"}, outs["nograd-first"], outs["grad-first"])
 
 
+def failed_backward_then_reuse_probe(ctx):
+    """a module integrand over a sequence: call; a graph-recording backward in which the integrand raises at one evaluation (caught by
+    the caller); in-place update of the module's parameter; call again - the module still holds the caller's tensor and the second
+    call returns the sample mean with the CURRENT parameter, with its gradient (round-5 seed C16/14: the substitution of the object's
+    parameters inside the backward lost its try/finally, the module kept a stale clone)"""
+    import xitorch as xt
+    from xitorch.integrate import mcquad
+    DTt = torch.float64
+
+    class Integrand(xt.EditableModule):
+        def __init__(self, a):
+            self.a = a
+            self.ncalls = 0
+            self.fail_at = None
+
+        def forward(self, x):
+            self.ncalls += 1
+            if self.fail_at is not None and self.ncalls == self.fail_at:
+                raise RuntimeError("transient failure in the user's integrand")
+            return self.a * x * x
+
+        def getparamnames(self, methodname, prefix=""):
+            return [prefix + "a"]
+    logp = lambda x, w: -x * x / (2 * w * w)
+    step = lambda x, w: x + 1.0
+    mean_x2 = (0.0 + 1.0 + 4.0 + 9.0) / 4
+    for k in (1, 2, 3, 5):
+        a = torch.tensor(2.0, dtype=DTt, requires_grad=True)
+        w = torch.tensor(1.0, dtype=DTt, requires_grad=True)
+        obj = Integrand(a)
+        run = lambda: mcquad(obj.forward, logp, torch.tensor(0.0, dtype=DTt), fparams=[], pparams=[w], method="mhcustom",
+                             custom_step=step, nsamples=4, nburnout=1)
+        ctx.count(("failed-recorded-backward-then-reuse", k), nontrivial=True)
+        info = {"integrand": "EditableModule a x^2", "sampler": "mhcustom x -> x + 1 (samples 0, 1, 2, 3)",
+                "integrand_raises_at_evaluation_of_backward": k}
+        try:
+            with warnings.catch_warnings():
+                warnings.simplefilter("ignore")
+                res1 = run()
+                obj.fail_at = obj.ncalls + k
+                raised = False
+                try:
+                    torch.autograd.grad(res1, (a, w), create_graph=True, allow_unused=True)
+                except RuntimeError:
+                    raised = True
+                obj.fail_at = None
+                held = obj.a is a
+                with torch.no_grad():
+                    a.mul_(2.0)
+                res2 = run()
+                ga, = torch.autograd.grad(res2, a, allow_unused=True)
+        except Exception as e:
+            ctx.fail("oracle", "mcquad:failed-backward-then-reuse:exception", info, repr(e)[:300], "values")
+            continue
+        ok = held and abs(float(res1.detach()) - 2.0 * mean_x2) < 1e-10 and abs(float(res2.detach()) - 4.0 * mean_x2) < 1e-10 \
+            and ga is not None and abs(float(ga) - mean_x2) < 1e-10
+        if not ok:
+            ctx.fail("oracle", "mcquad:failed-backward-then-reuse", dict(info, backward_raised=raised),
+                     {"module_holds_callers_tensor": held, "first": float(res1.detach()), "second": float(res2.detach()), "dsecond_da": None if ga is None else float(ga)},
+                     {"first": 2.0 * mean_x2, "second": 4.0 * mean_x2, "dsecond_da": mean_x2})
+
+
 def oracle(ctx):
     import xitorch as xt
     from xitorch.integrate import mcquad
@@ -256,6 +318,7 @@ def oracle(ctx):
     inplace_step_probe(ctx)
     round4_probes(ctx)
     aliased_params_probe(ctx)
+    failed_backward_then_reuse_probe(ctx)
     step = lambda x, *p: x * -0.9 + 0.3
     for rep in range(ctx.n(4, 20)):
         ns, nb = rng.randrange(2, 9), rng.randrange(1, 5)
